@@ -9,6 +9,7 @@ import (
 	"go/token"
 	"go/types"
 	"sort"
+	"strconv"
 	"strings"
 
 	"ssvharness/internal/gen"
@@ -188,6 +189,44 @@ func main() {
 			}
 		}
 		l.Raw("/-- converter main: inText/inGob -> BuilderFromText/BuilderFromGobString; outText/outGob -> WriteText/WriteGob -/\ndef converterUsesDomainsetIO : Bool := true\n")
+		// the dlc reader of the converter: its four local prefix constants and the four builder slots
+		df, err := cv.Func("", "DomainSetBuilderFromDlc")
+		if err != nil {
+			return err
+		}
+		local := map[string]string{}
+		ast.Inspect(df.Body, func(n ast.Node) bool {
+			if vs, ok := n.(*ast.ValueSpec); ok {
+				for i, nm := range vs.Names {
+					if i < len(vs.Values) {
+						if bl, ok := vs.Values[i].(*ast.BasicLit); ok && bl.Kind == token.STRING {
+							if v, err := strconv.Unquote(bl.Value); err == nil {
+								local[nm.Name] = v
+							}
+						}
+					}
+				}
+			}
+			return true
+		})
+		for _, pair := range [][2]string{{"dlcFullPrefix", "domainPrefix"}, {"dlcDomainPrefix", "suffixPrefix"}, {"dlcKeywordPrefix", "keywordPrefix"}, {"dlcRegexpPrefix", "regexpPrefix"}} {
+			v, ok := local[pair[1]]
+			if !ok {
+				return fmt.Errorf("DomainSetBuilderFromDlc: local constant %s not found", pair[1])
+			}
+			l.Raw(fmt.Sprintf("/-- converter DomainSetBuilderFromDlc: %s = %s (as bytes) -/\ndef %s : List UInt8 := %s\n", pair[1], gen.LeanString(v), pair[0], bytesList(v)))
+		}
+		dsrc := cv.Src(df.Body)
+		for _, need := range []string{"for line := range bytestrings.NonEmptyLines(text)", "if line[0] == '#' { continue }", "end := strings.IndexByte(line, '@')", "if end == 0 {",
+			"case strings.HasPrefix(line, domainPrefix): dsb.DomainMatcherBuilder().Insert(line[domainPrefixLen:end])",
+			"case strings.HasPrefix(line, suffixPrefix): dsb.SuffixMatcherBuilder().Insert(line[suffixPrefixLen:end])",
+			"case strings.HasPrefix(line, keywordPrefix): dsb.KeywordMatcherBuilder().Insert(line[keywordPrefixLen:end])",
+			"case strings.HasPrefix(line, regexpPrefix): dsb.RegexpMatcherBuilder().Insert(line[regexpPrefixLen:end])",
+			"if end == -1 || line[end+1:] != tag {"} {
+			if !strings.Contains(dsrc, need) {
+				return fmt.Errorf("DomainSetBuilderFromDlc: expected statement %q not found", need)
+			}
+		}
 		return nil
 	})
 }
